@@ -64,7 +64,8 @@ class NpRecorder:
 
     def quantile(self, z, p, *a, **k):
         v = self._real.quantile(z, p, *a, **k)
-        self.quantiles.append((float(p), float(v), len(z), self.last_scalar))
+        for pp, vv in zip(self._real.atleast_1d(p).ravel(), self._real.atleast_1d(v).ravel()):
+            self.quantiles.append((float(pp), float(vv), len(z), self.last_scalar))
         return v
 
 
@@ -401,6 +402,8 @@ def oracle(c, r=None):
                     beyond.append((k, n_gt, n_ge))
     if M != N:
         sig = {"class": cls, "vertex": "count", "clause": "cover-once"}
+        if abs(360.0 / deg_step - round(360.0 / deg_step)) > 1e-9:
+            sig["step"] = "non-divisor"      # beyond the property's quantifier: the code documents round(360/deg_step) directions
         if cond:
             sig["condition"] = cond
         return (sig, "deg_step=%r: %d vertices for %d directions (the normals do not cover the circle exactly once)%s" % (
